@@ -238,3 +238,27 @@ func inferPatterns(body string, names []string) []string {
 	}
 	return []string{"(" + strings.Join(parts, " ") + ")"}
 }
+
+// splitGoal splits a goal of the shape  H1 => (H2 => (and c1 ... cn))  into n goals  H1 => (H2 => ci)  when n is
+// large: each conjunct becomes an obligation of its own (small queries instead of one that times out).
+func splitGoal(g string, min int) []string {
+	root := parseSx(g)
+	var hyps []string
+	cur := root
+	for cur.atom == "" && len(cur.kids) == 3 && cur.kids[0].atom == "=>" {
+		hyps = append(hyps, cur.kids[1].src)
+		cur = cur.kids[2]
+	}
+	if cur.atom != "" || len(cur.kids) < 1+min || cur.kids[0].atom != "and" {
+		return []string{g}
+	}
+	var out []string
+	for _, c := range cur.kids[1:] {
+		t := c.src
+		for i := len(hyps) - 1; i >= 0; i-- {
+			t = "(=> " + hyps[i] + " " + t + ")"
+		}
+		out = append(out, t)
+	}
+	return out
+}
